@@ -11,11 +11,13 @@ def run(db, res, tier):
   tags = r_world.discover_tags(all_lcs)
   n, unknown = r_batch.check_batch(res, all_lcs, tags)
   res.floor("batched accesses", n, 540)
+  nsc = r_batch.check_per_world_scratch(res, db, all_lcs)
+  res.floor("per-world scratch arrays", nsc, 20)
   ns = r_batch.check_seeded_vs_batched(res, db, all_lcs)
   res.floor("host-seeded derived fields recomputed from batched inputs", ns, 2)
   if unknown > 12:
     res.error(f"{unknown} batched accesses of unknown form (confirmed baseline <= 12)")
-  res.rule_text = "R-BATCH: every access to a `*`-first Model array, followed through funcs/row views/closures, is indexed `W % a.shape[0]` (same array, W = the thread's world id), its closure-constant equivalent bound to m.<same field>.shape[0], or a set_const thread index over that field's batch size; R-BATCH.4: a Data field that make_data seeds from the unbatched MjModel and that a step kernel recomputes from batched fields is recomputed for every element unless the model-determined skip also requires those fields to be unbatched (`.shape[0] == 1`)"
+  res.rule_text = "R-BATCH: every access to a `*`-first Model array, followed through funcs/row views/closures, is indexed `W % a.shape[0]` (same array, W = the thread's world id), its closure-constant equivalent bound to m.<same field>.shape[0], or a set_const thread index over that field's batch size; R-BATCH.5: a scratch array filled at the thread's world position from per-world Data is allocated with first extent d.nworld (never by a Model field's batch extent); R-BATCH.4: a Data field that make_data seeds from the unbatched MjModel and that a step kernel recomputes from batched fields is recomputed for every element unless the model-determined skip also requires those fields to be unbatched (`.shape[0] == 1`)"
   res.explanation = (
     "Decides the mechanism C10 names: every kernel read (and set_const write) of a batchable Model field uses the reading "
     "thread's world modulo that field's own batch size. Enumerated package-wide over every resolved wp.launch site with the "
